@@ -46,6 +46,7 @@ type Engine struct {
 	nfresh    int
 	Warnings  []string
 	Fuel      int
+	ceCache   map[string]map[string]any
 	HypFuelFull bool
 	NoPrune   bool
 	termRange map[string]ival
